@@ -313,6 +313,7 @@ func (s *Solver) Check(base []*Term, extra []*Term, wantModel bool, hardTimeout 
 				for _, b := range extra {
 					fmt.Fprintf(f, "; extra %s\n", trunc(b.Key(), 400))
 				}
+				fmt.Fprintf(f, "%s\n", RenderStandalone(base, extra))
 				f.Close()
 			}
 		}
@@ -403,6 +404,23 @@ func (s *Solver) Check(base []*Term, extra []*Term, wantModel bool, hardTimeout 
 		}
 	}
 	return res, model, reason
+}
+
+// RenderStandalone renders base ∧ extra as one self-contained SMT-LIB script (debugging aid).
+func RenderStandalone(base, extra []*Term) string {
+	t := &Solver{}
+	t.resetState()
+	var sb strings.Builder
+	sb.WriteString("(set-logic ALL)\n")
+	fr := sframe{}
+	for _, b := range base {
+		t.emitTerm(&sb, b, &fr)
+	}
+	for _, b := range extra {
+		t.emitTerm(&sb, b, &fr)
+	}
+	sb.WriteString("(check-sat)\n")
+	return sb.String()
 }
 
 func (s *Solver) readSexp(deadline time.Time) (string, bool) {
